@@ -209,6 +209,24 @@ def loadw (m : Reg) (off : Nat) : Reg := fun k => m (off + k)
 /-- `_mm_load_ss` / `_mm_load_sd`: one element loaded into the low lane(s), the rest of the register zero -/
 def loadw_ss (m : Reg) (off : Nat) : Reg := fun k => if k = 0 then m off else 0
 def loadw_sd (m : Reg) (off : Nat) : Reg := fun k => if k < 2 then m (off + k) else 0
+/-- `_mm_maskload_ps/_epi32` (AVX): lane k is loaded when the sign bit of mask lane k is set, else 0.  `m` is the memory
+    already positioned at the pointer (`loadw p off`); a disabled lane is not accessed. -/
+def maskload32 (m mask : Reg) : Reg := fun k => if (mask k).msb then m k else 0
+/-- `_mm_maskload_pd/_epi64`: the sign bit of the 64-bit mask lane = of its high 32-bit half -/
+def maskload64 (m mask : Reg) : Reg := fun k => if (mask (2 * (k / 2) + 1)).msb then m k else 0
+/-- `_mm_maskstore_ps`: only the lanes whose mask sign bit is set are written -/
+def maskstore32 (m : Reg) (off n : Nat) (mask r : Reg) : Reg :=
+  fun w => if off ≤ w ∧ w < off + n ∧ (mask (w - off)).msb then r (w - off) else m w
+def maskstore64 (m : Reg) (off n : Nat) (mask r : Reg) : Reg :=
+  fun w => if off ≤ w ∧ w < off + n ∧ (mask (2 * ((w - off) / 2) + 1)).msb then r (w - off) else m w
+/-- AVX-512 `_mm*_mask_loadu_ps(src, k, p)`: bit i of k selects memory, else the lane of src -/
+def kload32 (src : Reg) (k : Nat) (m : Reg) : Reg := fun i => if (k >>> i) % 2 = 1 then m i else src i
+def kload64 (src : Reg) (k : Nat) (m : Reg) : Reg := fun i => if (k >>> (i / 2)) % 2 = 1 then m i else src i
+/-- AVX-512 `_mm*_mask_storeu_ps(p, k, r)` -/
+def kstore32 (m : Reg) (off n k : Nat) (r : Reg) : Reg :=
+  fun w => if off ≤ w ∧ w < off + n ∧ (k >>> (w - off)) % 2 = 1 then r (w - off) else m w
+def kstore64 (m : Reg) (off n k : Nat) (r : Reg) : Reg :=
+  fun w => if off ≤ w ∧ w < off + n ∧ (k >>> ((w - off) / 2)) % 2 = 1 then r (w - off) else m w
 /-- store of the `n` low lanes of `r` at word offset `off`; every other word keeps its value (the footprint of the store) -/
 def storew (m : Reg) (off n : Nat) (r : Reg) : Reg := fun w => if off ≤ w ∧ w < off + n then r (w - off) else m w
 
